@@ -114,18 +114,27 @@ def main() -> int:
     seed = int(os.environ.get("VERIF_SEED", "0") or 0)
     t0 = time.time()
     sys.path.insert(0, ROOT)
-    modname = f"harness.{prop}"
     os.environ.setdefault("VK_MODE", "sx")
-    mod = importlib.import_module(modname)
+    import glob
+    modnames = [f"harness.{prop}"] + sorted("harness." + os.path.basename(f)[:-3] for f in glob.glob(os.path.join(ROOT, "harness", f"{prop}_*.py")))
     lemmas = []
-    for name, obj in vars(mod).items():
-        meta = getattr(obj, "__vk__", None)
-        if meta and getattr(obj, "__module__", None) == modname:
-            if a.only and name != a.only:
-                continue
-            if meta["tier"] == "thorough" and tier != "thorough":
-                continue
-            lemmas.append((name, meta))
+    mods = {}
+    for modname in modnames:
+        # each module is imported in a separate interpreter when its lemmas run; here only the metadata is read
+        mod = importlib.import_module(modname)
+        mods[modname] = mod
+        for name, obj in vars(mod).items():
+            meta = getattr(obj, "__vk__", None)
+            if meta and getattr(obj, "__module__", None) == modname:
+                if a.only and name != a.only:
+                    continue
+                if meta["tier"] == "thorough" and tier != "thorough":
+                    continue
+                meta = dict(meta)
+                meta["module"] = modname
+                lemmas.append((name, meta))
+    mod = mods[modnames[0]]
+    modname = modnames[0]
     if not lemmas:
         print(f"HARNESS-ERROR no lemmas for {prop}")
         return 2
@@ -136,11 +145,11 @@ def main() -> int:
         for name, meta in lemmas:
             tmo = meta["thorough_timeout"] if tier == "thorough" else meta["timeout"]
             worker = "vk.qzworker" if meta["kind"] == "qz" else "vk.sxworker"
-            jobs.append((name, "main", None, pool.submit(_run_worker, worker, modname, name, tmo)))
+            jobs.append((name, "main", None, pool.submit(_run_worker, worker, meta["module"], name, tmo)))
             if meta["kind"] == "sx":
                 for label in meta["reach"]:
                     jobs.append((name, "twin", label,
-                                 pool.submit(_run_worker, worker, modname, name, meta["twin_timeout"], {"VK_TWIN": label})))
+                                 pool.submit(_run_worker, worker, meta["module"], name, meta["twin_timeout"], {"VK_TWIN": label})))
         for name, role, label, fut in jobs:
             r = fut.result()
             if role == "main":
@@ -161,15 +170,15 @@ def main() -> int:
                 # qz lemmas replay their own model against the real function and report `reproduced`
                 rp = {"failed": bool(m.get("reproduced")), "exc": m.get("detail", "")}
             elif call:
-                rp = _run_worker("vk.replay", modname, name, 120, {"VK_MODE": "replay"}, arg3=call)
+                rp = _run_worker("vk.replay", meta["module"], name, 120, {"VK_MODE": "replay"}, arg3=call)
             R["replay"] = rp
             if rp and rp.get("failed"):
                 h = hashlib.sha1((name + (call or m.get("detail", ""))).encode()).hexdigest()[:10]
                 path = os.path.join(ROOT, "replays", f"{prop}_{name}_{h}.json")
                 with open(path, "w") as f:
-                    json.dump({"property": prop, "module": modname, "lemma": name, "call": call,
+                    json.dump({"property": prop, "module": meta["module"], "lemma": name, "call": call,
                                "solver_message": m.get("detail"), "replay_exception": rp.get("exc"),
-                               "how": f"cd /verif && .venv/bin/python -m vk.replay {modname} {name} {path}"}, f, indent=1)
+                               "how": f"cd /verif && .venv/bin/python -m vk.replay {meta['module']} {name} {path}"}, f, indent=1)
                 violations.append((name, path, m.get("detail", "")[:300]))
             else:
                 inconclusive.append((name, "counterexample did not reproduce concretely: " + str(m.get("detail"))[:300]))
@@ -198,7 +207,7 @@ def main() -> int:
 
     wall = time.time() - t0
     if not a.no_evidence and not a.only:
-        write_evidence(prop, tier, seed, lemmas, results, violations, inconclusive, wall, mod, known_lines)
+        write_evidence(prop, tier, seed, lemmas, results, violations, inconclusive, wall, list(mods.values()), known_lines)
 
     for ln in known_lines:
         print(ln)
@@ -219,7 +228,7 @@ def main() -> int:
     return 0
 
 
-def write_evidence(prop, tier, seed, lemmas, results, violations, inconclusive, wall, mod, known_lines):
+def write_evidence(prop, tier, seed, lemmas, results, violations, inconclusive, wall, mods, known_lines):
     queries = []
     total_paths = 0
     confirmed = 0
@@ -249,7 +258,11 @@ def write_evidence(prop, tier, seed, lemmas, results, violations, inconclusive, 
             solver_s += float(t.get("solver_s", 0) or 0)
         if m.get("samples"):
             samples.extend(m["samples"][:4])
-    doc = getattr(mod, "ASSUMPTIONS", [])
+    doc = []
+    for _m in mods:
+        for _a in getattr(_m, "ASSUMPTIONS", []):
+            if _a not in doc:
+                doc.append(_a)
     ev = {
         "property_id": prop,
         "tier": tier,
